@@ -31,9 +31,14 @@ namespace GeographicLib {
     if (lon == Math::hd) lon = -Math::hd; // lon now in [-180,180)
     if (lat == Math::qd) lat *= (1 - numeric_limits<real>::epsilon() / 2);
     prec = max(0, min(int(maxprec_), prec));
+    real xr = floor(lon * m_), yr = floor(lat * m_);
+    // The products lon * m_ and lat * m_ are rounded.  Make sure that a point
+    // just below a cell boundary isn't moved across it.
+    if (fma(lon, real(m_), -xr) < 0) --xr;
+    if (fma(lat, real(m_), -yr) < 0) --yr;
     int
-      x = int(floor(lon * m_)) - lonorig_ * m_,
-      y = int(floor(lat * m_)) - latorig_ * m_,
+      x = int(xr) - lonorig_ * m_,
+      y = int(yr) - latorig_ * m_,
       ilon = x * mult1_ / m_,
       ilat = y * mult1_ / m_;
     x -= ilon * m_ / mult1_; y -= ilat * m_ / mult1_;
